@@ -1,6 +1,7 @@
 """C06: specs/Handshake.tla bound to internal/handshake (and, second driver, handleIncomingRequest)."""
 import json, os, re, time
 import vf
+import handshake_contact
 
 PKG = "internal/handshake"
 FILES = ["vf_handshake_verif_test.go"]
@@ -245,6 +246,10 @@ def _run(ctx, replay=None):
     ov = ctx.overlay({PKG: FILES})
     if replay:
         rp = json.load(open(replay))
+        if "contact_script" in rp:
+            handshake_contact.phase(ctx, replay_script=rp["contact_script"])
+            return ctx.finish(level="model_checking", rule="replay of one recorded run through handleIncomingRequest", exhaustive=False,
+                              technique="replay")
         scripts = [rp["script"]]
     else:
         fam = _gen(ctx)
@@ -355,6 +360,9 @@ def _run(ctx, replay=None):
     conf_blocks = [(bid, evs) for bid, evs in blocks if len(evs) > 1 and resets[bid].get("model")]
     if conf_blocks and not replay:
         _conformance_with_resets(ctx, conf_blocks, resets)
+    # second driver: the same intruder against handleIncomingRequest of a real service (root package)
+    if not replay and (ctx.tier != "quick" or os.environ.get("VERIF_C06_CONTACT") == "1"):
+        handshake_contact.phase(ctx)
     for s in scripts:
         if s.get("attack") and len(ctx.samples) < 2:
             bid = [b for b, _ in blocks if resets[b]["sid"] == s["id"]][0]
